@@ -136,6 +136,10 @@ class Target:
                 out.append(cst >= -4096)
         return out
 
+    def frame(self, c, st, out):
+        """extra (label, goal) clauses evaluated after ensures() in both modes: what the call must leave unchanged"""
+        return []
+
     def cross_compare(self, sctx, sst, nctx, nst, model, concretize):
         """extra symbolic-vs-native comparisons for the per-path witness (list of problems)"""
         return []
